@@ -206,6 +206,25 @@ def run_steps_on(node, box, nodespec, classes, steps):
         c04.build_node = saved
 
 
+class _Timeout(BaseException):
+    pass
+
+
+def with_timeout(seconds, func):
+    """a request that does not come back (a real driver waiting for hardware) must not hang the check"""
+    import signal
+
+    def handler(signum, frame):
+        raise _Timeout()
+    old = signal.signal(signal.SIGALRM, handler)
+    signal.setitimer(signal.ITIMER_REAL, seconds)
+    try:
+        return func()
+    finally:
+        signal.setitimer(signal.ITIMER_REAL, 0)
+        signal.signal(signal.SIGALRM, old)
+
+
 def run_steps_plain(node, steps):
     """shipped configuration: only requests that must not reach a driver are sent (undescribed names, changes of
     parameters described read-only, reads of constants); calls are not observed"""
@@ -226,7 +245,13 @@ def run_steps_plain(node, steps):
         if not a:
             continue
         before = c04.cache_rows(node)
-        reply = node.request(conn, st['kind'], st['spec'], st['data'])
+        timed_out = False
+        try:
+            reply = with_timeout(5, lambda: node.request(conn, st['kind'], st['spec'], st['data']))
+        except _Timeout:
+            # the request went into a real driver and did not return: recorded as such, the node is left alone
+            reply = ('error_' + st['kind'], st['spec'], ['Timeout', 'Timeout', {}])
+            timed_out = True
         data = st['data']
         wire = canonj(data) if st['kind'] == 'change' else (None if data is None else canonj(data)) if st['kind'] == 'do' else bool(data)
         out.append({'req': [st['kind'], st['spec'], wire], 'drv': 'none',
@@ -234,6 +259,8 @@ def run_steps_plain(node, steps):
                             'before': before, 'after': c04.cache_rows(node)},
                     'pyclass': reply[2][1] if reply[0].startswith('error_') else None})
         conn.msgs.clear()
+        if timed_out:
+            break
     nj = c04.node_json(node, None, None)
     return {'node': nj, 'steps': out, 'oracle': c04.Oracle().json(), 'errors': []}
 
